@@ -17,6 +17,9 @@ from . import analysis
 rule("C10.b", "on every path from the entry of a set-up / report method to a read of self.timegrid.restricted / "
               ".discount_factors the cache has been (re-)established for this asset, with no intervening call that "
               "re-establishes it for another asset", floor=12)
+rule("C10.j", "no result of a method is memoised (lru_cache / cache / cached_property) unless everything it reads is in the key: a method "
+              "that reads attributes of its object - or falls back to them when an argument is None - returns what was true for the "
+              "object's state at the first call", floor=1)
 rule("C09.h", "a loop over the assets of a portfolio reads nothing from the shared grid cache that a previous pass of the loop (the set-up of "
               "the asset before) may have left there: otherwise the result depends on the order of the assets", floor=1)
 rule("C16.h", "a wrapper (scaled / structured / linked asset) reads the shared grid cache only after re-establishing it for itself, "
@@ -143,7 +146,7 @@ class CacheAnalysis:
         sites = []
         # reads through the parameter `timegrid` count when the method hands that parameter to self.set_timegrid(..)
         self._param_grid_ok = fn.param("timegrid") is not None and any(
-            isinstance(c, ast.Call) and au.method_name(c) == "set_timegrid" and au.base_name(c.func) == "self" and c.args and au.U(c.args[0]) == "timegrid"
+            isinstance(c, ast.Call) and au.method_name(c) == "set_timegrid" and au.base_name(c.func) == "self" and au.U(au.arg_or_kw(c, 0, "timegrid")) == "timegrid"
             for c in au.walk_local(fn.node))
 
         def report(n, st, via=None):
@@ -185,7 +188,7 @@ def must_assign(fn) -> frozenset:
     return out if out is not None else frozenset()
 
 
-@analysis("gridcache", ["C10.b", "C10.c", "C16.h", "C10.g", "C17.i", "C09.h"])
+@analysis("gridcache", ["C10.b", "C10.c", "C16.h", "C10.g", "C17.i", "C09.h", "C10.j"])
 def run(ctx):
     p = ctx.p
     an = CacheAnalysis(ctx)
@@ -230,6 +233,25 @@ def run(ctx):
                        "the wrapper reads its window / step lengths from the shared grid after the wrapped asset's set-up overwrote them "
                        "(fixed costs over the base asset's duration, linking rows over the last inner asset's window): " + detail, node=sites[0][0])
     ctx.require(n_entries >= 12, "fewer than 12 set-up / report entry methods found on asset classes")
+
+    # ---------------------------------------------------------------- C10.j memoised methods
+    MEMO = ("lru_cache", "cache", "cached_property", "memoize", "memoized")
+    n_memo = 0
+    for fn in sorted(p.all_functions(), key=lambda f: f.qualname):
+        decs = [d for d in getattr(fn.node, "decorator_list", []) if any(
+            (isinstance(x, ast.Name) and x.id in MEMO) or (isinstance(x, ast.Attribute) and x.attr in MEMO) for x in ast.walk(d))]
+        if not decs:
+            continue
+        n_memo += 1
+        reads = [x for x in au.walk_local(fn.node, include_self=False) if isinstance(x, ast.Attribute) and isinstance(x.ctx, ast.Load)
+                 and isinstance(x.value, ast.Name) and x.value.id == "self" and not (isinstance(p.parent(x), ast.Call) and p.parent(x).func is x)] \
+            if fn.cls is not None else []
+        reads += [x for x in au.walk_local(fn.node, include_self=False) if isinstance(x, ast.Global)]
+        ctx.ob("C10.j", fn, "@%s" % au.short(decs[0], 40), not reads,
+               "the memoised result is keyed on the arguments, but the method also reads %s: a second set-up of the same object with another grid "
+               "(hourly, then 15 minutes) gets the step counts of the first - minimum run time and down time rows are built for the wrong "
+               "number of steps, silently" % (au.short(reads[0], 40) if reads else ""), node=(reads[0] if reads else fn.node))
+    ctx.ob("C10.j", "package", "memoised functions", True, ok_detail="%d memoised function(s), none reads state outside its key" % n_memo)
 
     # non-self reads: a function that reads <grid>.restricted of a grid it received must establish it first (make_slp)
     for fn in p.all_functions():
